@@ -12,9 +12,10 @@ from . import catalog, emit, emit_const
 
 VERIF = os.path.dirname(os.path.dirname(os.path.abspath(__file__)))
 REPO = os.environ.get("VERIF_REPO", "/repo")
-OUT = os.path.join(VERIF, "out")
+OUT = os.environ.get("VERIF_OUT") or os.path.join(VERIF, "out")
 SNAP = os.path.join(OUT, "snap")
-TARGET = os.path.join(VERIF, "target")
+TARGET = os.environ.get("VERIF_TARGET") or os.path.join(VERIF, "target")
+EVIDENCE = os.environ.get("VERIF_EVIDENCE_DIR") or os.path.join(VERIF, "evidence")
 VRT = os.path.join(VERIF, "harness", "vrt")
 
 ENV = dict(os.environ, CARGO_NET_OFFLINE="true", RUST_BACKTRACE="0", CARGO_TERM_COLOR="never")
